@@ -196,7 +196,7 @@ class Acceptor:
             got = self.peek()
             if got is None or got.ev != 'none' or got.k not in ('G', 'EX'):
                 return
-            if self.cfg != 'bc':
+            if True:
                 # a completion step that was aborted by an exception is offered again when an enclosing
                 # machine forwards its own completion event (back / back11 with forwarding rows): the
                 # source state is still active and its transition has not completed since it was entered
